@@ -52,13 +52,13 @@ func decodeDlResp(s string) (dlResp, bool) {
 }
 
 type dlCase struct {
-	Content []byte   // the object (oid = sha256)
-	Part    []byte   // nil = absent
-	HasPart bool
-	Final   []byte   // pre-existing final file (nil = absent)
+	Content  []byte // the object (oid = sha256)
+	Part     []byte // nil = absent
+	HasPart  bool
+	Final    []byte // pre-existing final file (nil = absent)
 	HasFinal bool
 	FinalDir bool // something that is not a file sits at the final path (an empty directory): the rename cannot succeed
-	Script  []dlResp
+	Script   []dlResp
 	Attempts int
 }
 
@@ -470,6 +470,7 @@ func c02(c *Ctx) {
 		c02Custom(c, r)
 		c02SSH(c, r)
 		c02Concurrent(c, r)
+		c06Real(c, NewRng(c.Seed^0xC02A), "C02")
 	}
 }
 
